@@ -97,6 +97,7 @@ func crossRegistered(c *Ctx) {
 	case "C02":
 		order("C02", "pairedEdges", "isWait", "refTable", "fieldAccess", "guardReceivers", "snapshot", "poolsProcessed", "laneIntegrity", "exprListsFresh")
 		parse("C02", "typeIdentity", "asyncFlag")
+		ruleVarDeclByName(c, "C02.47")
 		ctx("C02", "threaded", "samePredicate", "constQualifiers", "injected", "isContextType", "doneErr", "handlerUnchanged", "paramsNamedFirst", "namesWriteOnce", "notPatched")
 	case "C03":
 		order("C03", "pairedEdges", "refTable", "fieldAccess", "guardReceivers", "poolsAppendOnly", "poolsProcessed", "laneIntegrity", "emittedInPlace", "exprListsFresh", "readiness")
